@@ -7,7 +7,7 @@ from . import c01, campaign, fmt, laws, oracle
 
 LEVEL = 'proof'
 PID = 'C02'
-WEIGHTS = {'rect': 0.2, 'oct': 0.3, 'share': 0.25, 'selfop': 0.1, 'lat': 0.05, 'gp': 0.07, 'degen': 0.03, 'boxes': 0.06, 'straddle': 0.04, 'abut': 0.2, 'punch': 0.12, 'tjo': 0.08, 'vtj': 0.05}
+WEIGHTS = {'rect': 0.2, 'oct': 0.3, 'share': 0.25, 'selfop': 0.1, 'lat': 0.05, 'gp': 0.07, 'degen': 0.03, 'boxes': 0.06, 'straddle': 0.04, 'abut': 0.2, 'punch': 0.12, 'tjo': 0.08, 'vtj': 0.05, 'frameslab': 0.15}
 
 
 def structure_scene(mp):
